@@ -40,9 +40,10 @@ def affine_case(rng, kind, variant):
     y0 = rng.choice([-1.0, 0.0])
     d = mesh_diameter(W * H / rng.choice([40, 120]))
     u = UNIT_M[p["units"]]
-    two = variant in ("series", "axi-series")
+    two = variant in ("series", "axi-series", "interior-flux", "interior-surface-charge")
     # direction of the field: planar plates / series cases run along x or along y; axisymmetric ones along z
-    along = "y" if axi else (rng.choice(["x", "y"]) if variant in ("plates", "series") else "x")
+    along = "y" if axi else (rng.choice(["x", "y"]) if variant in ("plates", "series", "interior-flux", "interior-surface-charge") else "x")
+    interior = variant in ("interior-flux", "interior-surface-charge")
     V0, V1 = rng.choice([0.0, 5.0, -2.0]), rng.choice([10.0, 3.0, 7.5])
     info = dict(kind=kind, variant=variant, along=along)
     # both materials anisotropic, with different ratios between their two directions
@@ -68,6 +69,10 @@ def affine_case(rng, kind, variant):
         bA = B.prop("bdryprops", name="A", type=0, V=V0)
         bB = B.prop("bdryprops", name="B", type=0, V=V1)
         e1, e2 = (a1x, a2x) if along == "x" else (a1y, a2y)
+        if interior:
+            bI = B.prop("bdryprops", name="I", type=2, qs=0.0)      # surface charge density (C/m^2), set below from the wanted step
+            bB = 0
+            info.update(step=rng.choice([4.0, -2.5, 10.0]))
     elif kind == "feh":
         m1 = B.prop("blockprops", name="m1", kx=a1x, ky=a1y, kt=0.0, qv=0.0)
         m2 = B.prop("blockprops", name="m2", kx=a2x, ky=a2y, kt=0.0, qv=0.0)
@@ -80,6 +85,12 @@ def affine_case(rng, kind, variant):
         else:
             bB = B.prop("bdryprops", name="B", type=0, Tset=V1)
         e1, e2 = (a1x, a2x) if along == "x" else (a1y, a2y)
+        if interior:
+            # a heat flux (W/m^2, positive = heat taken out) prescribed on the INTERIOR line between the two materials, the far side
+            # insulated: every bit of it flows through material 1 to the fixed-temperature side; material 2 is isothermal
+            bI = B.prop("bdryprops", name="I", type=1, qs=0.0)      # set below from the wanted temperature step
+            bB = 0
+            info.update(step=rng.choice([4.0, -2.5, 10.0]))
     else:
         m1 = B.prop("blockprops", name="m1", mu_x=a1x, mu_y=a1y)
         m2 = B.prop("blockprops", name="m2", mu_x=a2x, mu_y=a2y)
@@ -97,13 +108,20 @@ def affine_case(rng, kind, variant):
             segs = p["segments"]
             bot, right, top, left = segs[0], segs[1], segs[2], segs[3]
             p["segments"] = [bot, dict(right, n1=a), dict(right, n0=a), top, dict(left, n1=b), dict(left, n0=b)]
-            B.seg(a, b)
+            B.seg(a, b, **(dict(bdry=bI) if interior else {}))
             B.label(x0 + W * 0.3, y0 + (ym - y0) * 0.5, m1, maxarea=d)
             B.label(x0 + W * 0.6, ym + (y0 + H - ym) * 0.5, m2, maxarea=d)
             c1, c2 = (e1, e2) if kind != "fem" else (1.0 / e1, 1.0 / e2)
             L1, L2 = ym - y0, y0 + H - ym
-            g1 = (V1 - V0) / (L1 + L2 * c1 / c2)
-            g2 = g1 * c1 / c2
+            if interior:
+                # potential step `step` over material 1: heat k1 dT/dn = -qs, electrostatics eps0 e1 dV/dn = +sigma
+                g1 = info["step"] / L1
+                g2 = 0.0
+                p["bdryprops"][bI - 1]["qs"] = (-e1 * g1 / u) if kind == "feh" else (EO * e1 * g1 / u)
+                info["qs"] = p["bdryprops"][bI - 1]["qs"]
+            else:
+                g1 = (V1 - V0) / (L1 + L2 * c1 / c2)
+                g2 = g1 * c1 / c2
             exact = lambda x, y: V0 + g1 * (y - y0) if y <= ym else V0 + g1 * L1 + g2 * (y - ym)
         else:
             B.label(x0 + W * 0.3, y0 + H * 0.4, m1, maxarea=d)
@@ -126,14 +144,21 @@ def affine_case(rng, kind, variant):
             segs = p["segments"]
             bot, right, top, left = segs[0], segs[1], segs[2], segs[3]
             p["segments"] = [dict(bot, n1=a), dict(bot, n0=a), right, dict(top, n1=b), dict(top, n0=b), left]
-            B.seg(a, b)
+            B.seg(a, b, **(dict(bdry=bI) if interior else {}))
             B.label(x0 + (xm - x0) * 0.5, y0 + H * 0.3, m1, maxarea=d)
             B.label(xm + (x0 + W - xm) * 0.5, y0 + H * 0.6, m2, maxarea=d)
             # series: flux continuous: e1 a1 = e2 a2 (for magnetics A: the normal derivative is weighted by 1/mu)
             c1, c2 = (e1, e2) if kind != "fem" else (1.0 / e1, 1.0 / e2)
             L1, L2 = xm - x0, x0 + W - xm
-            g1 = (V1 - V0) / (L1 + L2 * c1 / c2)
-            g2 = g1 * c1 / c2
+            if interior:
+                # potential step `step` over material 1: heat k1 dT/dn = -qs, electrostatics eps0 e1 dV/dn = +sigma
+                g1 = info["step"] / L1
+                g2 = 0.0
+                p["bdryprops"][bI - 1]["qs"] = (-e1 * g1 / u) if kind == "feh" else (EO * e1 * g1 / u)
+                info["qs"] = p["bdryprops"][bI - 1]["qs"]
+            else:
+                g1 = (V1 - V0) / (L1 + L2 * c1 / c2)
+                g2 = g1 * c1 / c2
             exact = lambda x, y: V0 + g1 * (x - x0) if x <= xm else V0 + g1 * L1 + g2 * (x - xm)
         else:
             B.label(x0 + W * 0.3, y0 + H * 0.4, m1, maxarea=d)
@@ -365,7 +390,8 @@ def correspond(ctx):
     rng = ctx.rng
     plan = [("fee", "plates"), ("fee", "series"), ("fee", "axi"), ("feh", "plates"), ("feh", "convection"), ("feh", "axi"),
             ("fem", "plates"), ("fem", "series"), ("feh", "series"), ("feh", "axi-convection"), ("feh", "axi-convection"),
-            ("fee", "series"), ("fee", "axi-series"), ("feh", "axi-series"), ("fem", "series"), ("fee", "plates"), ("feh", "series")]
+            ("fee", "series"), ("fee", "axi-series"), ("feh", "axi-series"), ("fem", "series"), ("fee", "plates"), ("feh", "series"),
+            ("feh", "interior-flux"), ("fee", "interior-surface-charge"), ("feh", "interior-flux")]
     if not ctx.quick():
         plan = plan * 6
     feats, samples, done = {}, [], 0
